@@ -10,9 +10,10 @@
     `C02_advance_lockstep` (runtime: an advance leaves exactly the store of the next node of the tree).
   * A consumer that stops calling causes nothing to run: the models have no transition without a
     consumer operation (`Facts`: no goroutine, no init, no finalizer in seq).
-  Partial: the optimiser's Delay elision is not yet covered by a theorem (K5/K6d correspondences).
+  * The same through the optimiser: `C02_optimized_construct_pure` (every accepted body, switches included:
+    constructing the OPTIMISED iterator evaluates nothing) and `C02_optimized_lockstep_partial`.
 -/
-import GoCo.Proofs.CompileCorrect
+import GoCo.Proofs.OptimizeCorrect
 import GoCo.Runtime.Gen
 set_option autoImplicit false
 
@@ -54,5 +55,18 @@ theorem C02_lockstep_partial {σ P : Type} (ρ : MG.Interp σ P) (N : Nat) (q : 
     ∃ th, t = .cons (.rete (.start (.delay th))) .nil ∧
       ∀ st, MG.denT ρ N th st = MG.closed (MG.denL ρ N true p st) :=
   MG.compile_correct_partial ρ N q p t h hg
+
+/-- … and still nothing after the optimiser has elided Delays: for every accepted body -/
+theorem C02_optimized_construct_pure {σ P : Type} (ρ : MG.Interp σ P) (N : Nat) (q : MG.Quirks) (p t : MG.Stmts)
+    (h : MG.compile q p = .ok t) (hs : MG.woL p = true) :
+    ∃ e, MG.optimize t = .cons (.rete (.start e)) .nil ∧ ∃ run, ∀ st, MG.evalS ρ N e st = (.ok run, st) :=
+  MG.compile_optimize_construct_pure ρ N q p t h hs
+
+/-- compiler lockstep through the optimiser, under the guard -/
+theorem C02_optimized_lockstep_partial {σ P : Type} (ρ : MG.Interp σ P) (N : Nat) (q : MG.Quirks) (p t : MG.Stmts)
+    (h : MG.compile q p = .ok t) (hg : MG.InFragment p = true) (hs : MG.woL p = true) :
+    ∃ e, MG.optimize t = .cons (.rete (.start e)) .nil ∧
+      ∃ run, (∀ st, MG.evalS ρ N e st = (.ok run, st)) ∧ ∀ st, run st = MG.closed (MG.denL ρ N true p st) :=
+  MG.compile_optimize_correct_partial ρ N q p t h hg hs
 
 end GoCo.C02
